@@ -431,6 +431,8 @@ class Runner:
         """two session() blocks for the same session, one inside the other: the inner one sets k2, then the outer
         one sets k1; both persist (the blocks share the stored dict)"""
         sid = self.real(op['sid'])
+        if _nested_other(op):
+            return self._session_nested_other(op)
         if self.w.is_async:
             async def blk():
                 async with self.sio.session(sid, namespace=op['ns']) as outer:
@@ -446,6 +448,32 @@ class Runner:
                     inner[op['k2']] = copy.deepcopy(op['v2'])
                 outer[op['k']] = copy.deepcopy(op['v'])
             return copy.deepcopy(self.sio.get_session(sid, namespace=op['ns']))
+        return self.w.run(blk)
+
+    def _session_nested_other(self, op):
+        """two session() blocks, one inside the other, for two DIFFERENT sessions (op['inner'] names the inner one:
+        another namespace of the same client, another client's, or a pair naming no live session -- then the inner
+        entry raises inside the outer block): the inner block sets k2 and exits, then the outer one sets k and exits;
+        the result is what get_session() returns for both afterwards"""
+        sid, ns = self.real(op['sid']), op['ns']
+        isid, ins = self.real(op['inner']['sid']), op['inner']['ns']
+        if self.w.is_async:
+            async def blk():
+                async with self.sio.session(sid, namespace=ns) as outer:
+                    async with self.sio.session(isid, namespace=ins) as inner:
+                        inner[op['k2']] = copy.deepcopy(op['v2'])
+                    outer[op['k']] = copy.deepcopy(op['v'])
+                return {'outer': copy.deepcopy(await self.sio.get_session(sid, namespace=ns)),
+                        'inner': copy.deepcopy(await self.sio.get_session(isid, namespace=ins))}
+            return self.w.run(blk)
+
+        def blk():
+            with self.sio.session(sid, namespace=ns) as outer:
+                with self.sio.session(isid, namespace=ins) as inner:
+                    inner[op['k2']] = copy.deepcopy(op['v2'])
+                outer[op['k']] = copy.deepcopy(op['v'])
+            return {'outer': copy.deepcopy(self.sio.get_session(sid, namespace=ns)),
+                    'inner': copy.deepcopy(self.sio.get_session(isid, namespace=ins))}
         return self.w.run(blk)
 
     def _session_block_save(self, op):
@@ -928,6 +956,44 @@ def _nested_as_blocks(o):
             {'op': 'session_block', 'sid': o['sid'], 'ns': o['ns'], 'k': o['k'], 'v': o['v']}]
 
 
+def _nested_other(o):
+    """a `session_nested` whose inner block is for another (sid, namespace) than the outer one"""
+    i = o.get('inner')
+    return bool(i) and (i['sid'], i['ns']) != (o['sid'], o['ns'])
+
+
+def _model_nested_other(drv, o):
+    """`session_nested` with an inner block for ANOTHER session, as model inputs -- each block = getSession at entry,
+    modify, saveSession at exit, on its own (sid, namespace): getSession(outer); getSession(inner) [raises when the pair
+    names no session: the exception leaves the outer block, which saves its entry dict unmodified]; saveSession(inner,
+    entry dict + k2); saveSession(outer, entry dict + k); the result is getSession of both."""
+    def ask(x):
+        return model_obs(drv.ask(op_wire(x)))
+    me = {'sid': o['sid'], 'ns': o['ns']}
+    other = {'sid': o['inner']['sid'], 'ns': o['inner']['ns']}
+    out = model_obs({'outs': []})
+    a = ask(dict(me, op='get_session'))
+    if a['raised']:
+        out['raised'] = True
+        return out
+    cur = a['result']
+    b = ask(dict(other, op='get_session'))
+    if b['raised']:
+        out['raised'] = True
+    else:
+        cur2 = b['result']
+        if isinstance(cur2, dict):
+            cur2[o['k2']] = o['v2']
+        ask(dict(other, op='save_session', v=cur2))
+        if isinstance(cur, dict):
+            cur[o['k']] = o['v']
+    ask(dict(me, op='save_session', v=cur))
+    if not out['raised']:
+        out['result'] = {'outer': ask(dict(me, op='get_session'))['result'],
+                         'inner': ask(dict(other, op='get_session'))['result']}
+    return out
+
+
 def _model_block_save(drv, o):
     """`session_block_save` as model inputs: getSession (the dict E the block works on); saveSession for the call made
     while the block is open; saveSession of E with the block's modifications (what the exit of the block does, also
@@ -958,7 +1024,9 @@ def model_run(cfg, ops):
     flat = []
     now = cfg
     for o in ops:
-        if o['op'] == 'session_nested':
+        if o['op'] == 'session_nested' and _nested_other(o):
+            flat.append({'_dialogue': o})
+        elif o['op'] == 'session_nested':
             flat.extend(_nested_as_blocks(o))
         elif o['op'] == 'register':
             # the model's `step` takes the registry as a parameter: from here on it is the extended one
@@ -978,7 +1046,8 @@ def model_run(cfg, ops):
             obs = []
             for o in flat:
                 if '_dialogue' in o:
-                    obs.append(_model_block_save(drv, o['_dialogue']))
+                    d = o['_dialogue']
+                    obs.append((_model_nested_other if d['op'] == 'session_nested' else _model_block_save)(drv, d))
                 else:
                     obs.append(model_obs(drv.ask(o['_wire'] if '_wire' in o else op_wire(o))))
             answers = [drv.ask({'op': 'snapshot'})]
@@ -991,7 +1060,7 @@ def model_run(cfg, ops):
     out = []
     i = 0
     for o in ops:
-        if o['op'] == 'session_nested':
+        if o['op'] == 'session_nested' and not _nested_other(o):
             out.append(obs[i + 1])          # the state after both blocks; result of the second (outer) write
             i += 2
             continue
@@ -1064,7 +1133,9 @@ def compare(op, impl, model):
         if bool(impl['exc']) != model['raised']:
             diffs.append('nested session blocks: impl exc=%r model raised=%r' % (impl['exc'], model['raised']))
         elif not impl['exc'] and not C.same(impl['result'], model['result']):
-            diffs.append('nested session() blocks lost a modification: stored %r, both writes give %r'
+            diffs.append(('nested session() blocks for two different sessions: afterwards the sessions hold %r, each block '
+                          'writing to its own session gives %r' if _nested_other(op) else
+                          'nested session() blocks lost a modification: stored %r, both writes give %r')
                          % (impl['result'], model['result']))
     elif k in ('get_session', 'session_block', 'session_block_save', 'save_session', 'enter', 'leave', 'close',
                'disconnect', 'emit'):
